@@ -196,12 +196,34 @@ def is_accessor(g):
     return False
 
 
-def view(prog, root, pick=None, depth=MAX_DEPTH, accessors=False):
+def is_classifier(g):
+    """A small leaf function that maps one enum value (taken by value or by
+    reference) to another value by switching on its variant
+    (`loop_step(Escape) -> LoopStep`): the decision it hides belongs to the
+    caller's table, so it is inlined wherever it is called."""
+    if g is None or not g.full or g.is_closure or g.generated or g.from_expansion:
+        return False
+    if len(g.blocks) > 24 or g.natural_loops() or g.arg_count != 1 or g.impl_trait is not None:
+        return False
+    a = g.prog.adts.get(g.locals[1].replace("&mut ", "").replace("&", "")) if len(g.locals) > 1 else None
+    if not a or len(a.get("variants", [])) < 2:
+        return False
+    if any(not c.is_ptr and c.res in g.prog.fns and g.prog.fns[c.res].full for c in g.calls()):
+        return False
+    for bb in range(len(g.blocks)):
+        if g.term(bb)["k"] == "switch":
+            info = g.switch_info(bb)
+            if info and info["kind"] == "discr" and g.canon(info["place"])[0] == ("arg", 1):
+                return True
+    return False
+
+
+def view(prog, root, pick=None, depth=MAX_DEPTH, accessors=False, classifiers=False, closures=False):
     """Synthetic Fn: `root` with its private helpers inlined.  `pick(call)`
     may veto individual call sites; with `accessors`, small kind-test
     accessors (`is_accessor`) are inlined as well, wherever they are called.
     Returns `root` itself when nothing was inlined."""
-    key = (root.path, depth, getattr(pick, "__name__", None), accessors)
+    key = (root.path, depth, getattr(pick, "__name__", None), accessors, classifiers, closures)
     memo = getattr(prog, "_views", None)
     if memo is None:
         memo = prog._views = {}
@@ -210,6 +232,13 @@ def view(prog, root, pick=None, depth=MAX_DEPTH, accessors=False):
     helpers = set(private_helpers(prog, root))
     if accessors:
         helpers |= {p for p, g in prog.fns.items() if is_accessor(g)}
+    always = set()
+    if classifiers:
+        always = {p for p, g in prog.fns.items() if p != root.path and is_classifier(g)}
+        helpers |= always
+    if closures:
+        helpers |= {g.path for g in prog.fns.values() if g.full and g.is_closure
+                    and (g.root_fn().path == root.path or g.root_fn().path in helpers)}
     if not helpers or not root.full:
         memo[key] = root
         return root
@@ -236,9 +265,15 @@ def view(prog, root, pick=None, depth=MAX_DEPTH, accessors=False):
         chain = origin[bb]
         if callee in chain or len(chain) > depth or len(blocks) + len(g.blocks) > MAX_BLOCKS:
             continue
-        if len(t["args"]) != g.arg_count:
+        is_clo = g.is_closure
+        if is_clo:
+            # rust-call ABI: (environment, tuple of arguments)
+            if not closures or len(t["args"]) != 2 or (g.arg_count > 1 and t["args"][1][0] not in ("cp", "mv")):
+                continue
+        elif len(t["args"]) != g.arg_count:
             continue
-        if pick is not None and not (accessors and is_accessor(g)) and not pick(mir.Call(root, bb, t)):
+        if pick is not None and not (accessors and is_accessor(g)) and callee not in always \
+                and not pick(mir.Call(root, bb, t)):
             continue
         lo, bo, po = len(locals_), len(blocks), len(promoted)
         locals_.extend(g.locals)
@@ -247,8 +282,15 @@ def view(prog, root, pick=None, depth=MAX_DEPTH, accessors=False):
             debug.append([name, _remap_place(pl, lo)])
         span = t.get("span")
         # argument passing
-        for i, a in enumerate(t["args"]):
-            b["s"].append(["=", [lo + 1 + i, []], ["use", a], span])
+        if is_clo:
+            b["s"].append(["=", [lo + 1, []], ["use", t["args"][0]], span])
+            for i in range(g.arg_count - 1):
+                tp = t["args"][1][1]
+                fld = ["f", i, g.locals[2 + i], "", "", ""]
+                b["s"].append(["=", [lo + 2 + i, []], ["use", ["cp", [tp[0], list(tp[1]) + [fld]]]], span])
+        else:
+            for i, a in enumerate(t["args"]):
+                b["s"].append(["=", [lo + 1 + i, []], ["use", a], span])
         dst, cont = t["dst"], t.get("t")
         b["t"] = {"k": "goto", "t": bo}
         for gb in g.blocks:
